@@ -16,10 +16,13 @@
 (*                                         its non-zero registers          *)
 (*  W  st w api k i c lane d chg           WriteOperand (api WO, d = the   *)
 (*                                         uint64), WriteOperandBytes (WB),*)
-(*                                         SetVCC/SetEXEC/SetSCC (SET)     *)
+(*                                         SetVCC/SetEXEC/SetSCC (SET),    *)
+(*                                         RegisterFile.Write with the     *)
+(*                                         wavefront's offset (WF, timing) *)
 (*  R  st w api k i c lane n a chg         ReadOperand (RO, a = the uint64)*)
 (*                                         ReadOperandBytes (RB, n = byte  *)
 (*                                         count), VCC()/EXEC()/SCC() (GET)*)
+(*                                         RegisterFile.Read (RF, timing)  *)
 (*  X  st w chg                            wavefront ended (timing:        *)
 (*                                         resetRegisterValue ran)         *)
 (*  Panic st w api k i c lane msg chg      the real code panicked          *)
@@ -116,7 +119,7 @@ TRelease ==
 \* bytes the call stores: WriteOperand takes the low bytes of the uint64
 WData == IF Ev.api = "WO" THEN Prefix(Ev.d, WBytes) ELSE Ev.d
 WApiOK ==
-  CASE Ev.api = "WB" -> Len(Ev.d) = WBytes
+  CASE Ev.api \in {"WB", "WF"} -> Len(Ev.d) = WBytes
     [] Ev.api = "WO" -> Len(Ev.d) = 8 /\ WBytes <= 8
     [] Ev.api = "SET" -> /\ <<Ev.k, Ev.c>> \in {<<"vcclo", 2>>, <<"execlo", 2>>, <<"scc", 0>>}
                          /\ Len(Ev.d) = WBytes
@@ -142,11 +145,12 @@ TWrite ==
 \* ------------------------------------------------------------------- reads
 All == Flatten(ReadVals)
 Expected ==
-  CASE Ev.api = "RB" -> Prefix(All, Ev.n)
+  CASE Ev.api \in {"RB", "RF"} -> Prefix(All, Ev.n)
     [] Ev.api = "RO" -> Pad8(Prefix(All, 8))
     [] Ev.api = "GET" -> All
 RApiOK ==
   CASE Ev.api = "RB" -> Ev.n >= 1
+    [] Ev.api = "RF" -> Ev.n = WBytes /\ ~Emu /\ Ev.k \in {"s", "v"}
     [] Ev.api = "RO" -> TRUE
     [] Ev.api = "GET" -> <<Ev.k, Ev.c>> \in {<<"vcclo", 2>>, <<"execlo", 2>>, <<"scc", 0>>}
     [] OTHER -> FALSE
